@@ -60,5 +60,20 @@ func (a jsonArray) Patch(d Diff) (JsonNode, error) {
 func (a jsonArray) patch(pathBehind, pathAhead Path, before, oldValues, newValues, after []JsonNode, strategy patchStrategy) (JsonNode, error) {
 	_, metadata, _ := pathAhead.next()
 	n := dispatch(a, metadata)
-	return n.patch(pathBehind, pathAhead, before, oldValues, newValues, after, strategy)
+	p, err := n.patch(pathBehind, pathAhead, before, oldValues, newValues, after, strategy)
+	if err != nil {
+		return nil, err
+	}
+	// The reading of an array (list, set, multiset) belongs to the call,
+	// not to the document: hand back a plain array, so that the patched
+	// document diffs and compares like a parsed one.
+	switch t := p.(type) {
+	case jsonList:
+		return jsonArray(t), nil
+	case jsonSet:
+		return jsonArray(t), nil
+	case jsonMultiset:
+		return jsonArray(t), nil
+	}
+	return p, nil
 }
